@@ -345,6 +345,7 @@ func (m *scanModel) respond(sc *srvScanner, req *pb.ScanRequest) *pb.ScanRespons
 		// heartbeat: nothing this time, come back
 		sc.heartbeat++
 		m.heartbeats = true
+		resp.HeartbeatMessage = proto.Bool(true)
 		resp.MoreResultsInRegion = proto.Bool(true)
 		resp.MoreResults = proto.Bool(true)
 		return resp
@@ -377,7 +378,7 @@ func (m *scanModel) respond(sc *srvScanner, req *pb.ScanRequest) *pb.ScanRespons
 				if i == nfrag-1 {
 					sc.pending = append(sc.pending, cells)
 				} else {
-					sc.pending = append(sc.pending, cells[:1])
+					sc.pending = append(sc.pending, cells[:1:1])
 					cells = cells[1:]
 				}
 			}
@@ -412,6 +413,12 @@ func (m *scanModel) respond(sc *srvScanner, req *pb.ScanRequest) *pb.ScanRespons
 		done++
 	}
 	if remaining() {
+		if d%8 == 6 {
+			// the server's time limit was reached with rows still to read: HBase flags such a
+			// response as a heartbeat - and sends along whatever it has collected so far
+			resp.HeartbeatMessage = proto.Bool(true)
+			m.heartbeats = true
+		}
 		resp.MoreResultsInRegion = proto.Bool(true)
 		resp.MoreResults = proto.Bool(true)
 		return resp
@@ -498,6 +505,7 @@ func (a *rowAcc) add(res *hrpc.Result, partials bool) {
 	if len(res.Cells) == 0 && a.skipEmpty {
 		return
 	}
+	useResult(res)
 	if partials && len(a.rows) > 0 {
 		last := a.rows[len(a.rows)-1]
 		if len(res.Cells) == 0 || (len(last) > 0 && bytes.Equal(last[0].Row, res.Cells[0].Row)) {
